@@ -436,6 +436,11 @@ class InterpBase:
         es = enum_source(st.iter)
         if es and el.tup is not None and len(el.tup) == 2:
             el = replace(el, tup=(replace(el.tup[0], kof=es), el.tup[1]))
+        its = st.iter
+        if isinstance(its, ast.Call) and isinstance(its.func, ast.Attribute) and its.func.attr == "items" and not its.args \
+                and el.tup is not None and len(el.tup) == 2 and el.tup[0].kof is None:
+            # `for k, v in X.items()`: k is a key of X
+            el = replace(el, tup=(replace(el.tup[0], kof=norm(its.func.value)), el.tup[1]))
         pre_lt = env.get(LT)
         loop_env = dict(env)
         src = or_empty_source(st.iter)
